@@ -504,6 +504,9 @@ func BaseStubs() map[string]StubFn {
 				s = streamName(a[0])
 			}
 			r.Effects = append(r.Effects, Effect{Op: "print:" + s, Args: []value{out}})
+			if s == "stderr" {
+				r.Stderr = append(r.Stderr, out)
+			}
 			return tuple{lenV(out), iface{}}
 		}
 	}
@@ -580,6 +583,7 @@ func BaseStubs() map[string]StubFn {
 	st[lg+"Printf"] = func(r *Run, fr *frame, fn *ssa.Function, a []value) value { return nil }
 	st[lg+"Warnf"] = func(r *Run, fr *frame, fn *ssa.Function, a []value) value {
 		r.Diags = append(r.Diags, r.mkDiag("warn", a[0], variadic(a[1])))
+		r.Stderr = append(r.Stderr, concatV(r.renderMsg(a[0], variadic(a[1])), "\n"))
 		return nil
 	}
 	st[lg+"Errorf"] = func(r *Run, fr *frame, fn *ssa.Function, a []value) value {
@@ -597,6 +601,7 @@ func BaseStubs() map[string]StubFn {
 			}()
 			msg = r.sprintf(strings.ReplaceAll(f, "%w", "%v"), variadic(a[1]))
 		}()
+		r.Stderr = append(r.Stderr, concatV(msg, "\n"))
 		return r.newError(msg)
 	}
 	st[lg+"SetupLogger"] = func(r *Run, fr *frame, fn *ssa.Function, a []value) value {
@@ -650,6 +655,22 @@ func streamName(w value) string {
 		return nv.rv.Type().String()
 	}
 	return "writer"
+}
+
+func (r *Run) renderMsg(format value, args []value) (msg value) {
+	msg = "<message>"
+	f, ok := format.(string)
+	if !ok {
+		return
+	}
+	defer func() {
+		if p := recover(); p != nil {
+			if _, ok := p.(unsupportedErr); !ok {
+				panic(p)
+			}
+		}
+	}()
+	return r.sprintf(strings.ReplaceAll(f, "%w", "%v"), args)
 }
 
 func (r *Run) mkDiag(kind string, format value, args []value) Diag {
